@@ -255,6 +255,22 @@ func init() {
 		wp, wt, bp, bt := ai.CountThreats(&c, B)
 		return strconv.Itoa(wp) + " " + strconv.Itoa(wt) + " " + strconv.Itoa(bp) + " " + strconv.Itoa(bt) + " " + threatReal(B)
 	}
+	// threatclone: the detector on a CLONE of a position that lived in a search-stack frame, after that frame was reused
+	opTable["threatclone"] = func(s *Session, a []string) string {
+		p := decPos(a[0])
+		f1 := tak.Alloc(p.Size())
+		A, err := p.MovePreallocated(decMove(a[1]), f1)
+		if err != nil {
+			return "err"
+		}
+		K := A.Clone()
+		if _, err := p.MovePreallocated(decMove(a[2]), f1); err != nil {
+			p.MovePreallocated(tak.Move{Type: tak.Pass}, f1)
+		}
+		c := bitboard.Precompute(uint(K.Size()))
+		wp, wt, bp, bt := ai.CountThreats(&c, K)
+		return strconv.Itoa(wp) + " " + strconv.Itoa(wt) + " " + strconv.Itoa(bp) + " " + strconv.Itoa(bt) + " " + threatReal(K)
+	}
 	opTable["threatreal"] = func(s *Session, a []string) string { return threatReal(decPos(a[0])) }
 	opTable["sthreatreal"] = opTable["threatreal"]
 	// is there a one-ply road win at all (for the under-count statistics and as a tie on win detection)
